@@ -109,12 +109,15 @@ pub enum FaultKind {
     Err(ErrKind),
 }
 
-/// A fault bound to a *data offset*: the source delivers bytes `0..at` (under any fragmentation) and from then on
-/// every call returns the fault. Sticky.
+/// A fault bound to a *data offset*: the source delivers bytes `0..at` (under any fragmentation); then every call
+/// returns the fault (sticky, the default) or — `once` — exactly one call fails and the stream carries on behind it
+/// (a transient error: the source *did* fail, a caller that silently retries has swallowed an I/O error).
 #[derive(Clone, Copy, Debug, PartialEq, Eq, Serialize, Deserialize)]
 pub struct Fault {
     pub at: u64,
     pub kind: FaultKind,
+    #[serde(default)]
+    pub once: bool,
 }
 
 #[derive(Clone, Debug, Default, PartialEq, Serialize, Deserialize)]
@@ -298,6 +301,7 @@ pub struct SrcState {
     pub track_positions: bool,
     pub reads_after_eof: u64,
     eof_seen: bool,
+    pub livelock_broken: bool,
 }
 
 #[derive(Clone)]
@@ -325,6 +329,7 @@ impl SrcHandle {
             track_positions: false,
             reads_after_eof: 0,
             eof_seen: false,
+            livelock_broken: false,
         })))
     }
 
@@ -396,11 +401,18 @@ impl SrcState {
                         self.reads_after_eof += 1;
                     }
                     self.eof_seen = true;
+                    if self.reads_after_eof > 4096 {
+                        self.livelock_broken = true;
+                        return Step::Err(ErrKind::Other);
+                    }
                     Step::Ok(0)
                 }
                 FaultKind::Err(k) => {
                     self.stats.fault_err_hits += 1;
                     self.note(req, "err", 4, k as u64);
+                    if f.once {
+                        self.spec.fault = None;
+                    }
                     Step::Err(k)
                 }
             },
@@ -411,6 +423,12 @@ impl SrcState {
                     self.reads_after_eof += 1;
                 }
                 self.eof_seen = true;
+                if self.reads_after_eof > 4096 {
+                    // a caller spinning on end-of-stream: break its loop deterministically instead of waiting for the
+                    // wall-clock watchdog (the property that owns the source reports `reads_after_eof`)
+                    self.livelock_broken = true;
+                    return Step::Err(ErrKind::Other);
+                }
                 Step::Ok(0)
             }
         }
